@@ -59,6 +59,8 @@ def run(ctx, res):
             v = T.lit_value(b["tree"])
             if isinstance(v, int) and not isinstance(v, bool):
                 oblig.CONSTS[b["def_path"]] = v
+            elif isinstance(v, str):
+                oblig.CONST_STRS[b["def_path"]] = v
     bodies = universe(ctx)
     res.extra["universe_functions"] = len(bodies)
     res.floor("C01.universe", "functions reachable from the three entry points", len(bodies), 48)
